@@ -10,6 +10,7 @@ From SV Require Import Base.Base IR.State IR.NS IR.Ops Xform.Clone Xform.Strs Xf
   Proofs.InvP Proofs.InvW Proofs.C01_full Proofs.Fresh Proofs.NsInv Proofs.RefK Proofs.FieldT Proofs.XformInv Proofs.CloneInv
   Proofs.CloneRef Proofs.CloneT Proofs.CloneFull Proofs.XHistory Proofs.CloneFrame Proofs.CloneStart Proofs.KindD
   Proofs.CloneNetInv Proofs.CloneAux Proofs.CloneAuxLib.
+From SV Require Import Proofs.UniqFresh.
 Import ListNotations RecordSetNotations.
 
 Definition G (s : state) : Prop := UF s /\ FreshT s /\ RefD s /\ TopK s.
@@ -79,13 +80,11 @@ Proof.
   destruct (clone_definition (st x) d) as [r d']. cbn [fst snd] in *.
   apply upg_liftR; [exact HC|].
   intros x1 U1.
-  set (named := match get_str (st x1) d str_NAME with Some nm => _ | None => _ end).
+  set (named := rename_block x1 lib d d').
   assert (Hn : UPG named).
-  { unfold named. destruct (get_str (st x1) d str_NAME) as [nm|]; [|intros _; exact U1].
-    cbv zeta. destruct (fresh_ctr _ _ _ _ _ _) as [k|]; [|intro H; discriminate].
-    apply (upg_dict_set (mkX (st x1) (S k) (flat_ctr x1))); [exact U1|]. intros x3 U3.
-    destruct (get_str (st x3) d' str_IDENT) as [idv|]; [|intros _; exact U3].
-    apply upg_dict_set; [exact U3|]. intros x4 U4 _. exact U4. }
+  { unfold UPG. destruct named as [x5 e] eqn:Eb. cbn [fst snd]. intros ->.
+    apply (rename_block_post G x1 lib d d' x5 U1); [|exact Eb].
+    intros s0 k0 v0 _ H0 _. eapply g_struct; [apply se_dict_set|exact H0]. }
   destruct named as [x5 [e|]]; [intro H; discriminate|].
   assert (U5 : G (st x5)) by (apply Hn; reflexivity).
   apply upg_liftR; [intros _; apply g_op_add; exact U5|].
